@@ -179,4 +179,75 @@ theorem inLang_star {F : Follow} {p : Abs} (hc : ∀ q ∈ cross p p, q ∈ F) :
     · intro x hx
       rcases mem_seq_l.mp hx with hx | ⟨_, hx⟩ <;> exact hx
 
+/-! ### annotated strings: the symbols of a chunk stream with the OCCURRENCE of every layout chunk -/
+
+theorem tcCode_lt (c : TC) : tcCode c < 256 := by
+  cases c <;> simp only [tcCode] <;> first | omega | (split <;> omega)
+
+theorem symT_lt (c : TC) : Sym.t c < 512 := by
+  have := tcCode_lt c
+  show 2 * tcCode c < 512
+  omega
+
+theorem symM_lt (mk : Marker) (hdr : Bool) : Sym.m mk hdr < 64 ∧ Sym.m mk hdr % 2 = 1 := by
+  cases mk <;> cases hdr <;> decide
+
+theorem erase_t (c : TC) : eraseSym (Sym.t c) = Sym.t c := by
+  simp [eraseSym, symT_lt c]
+
+theorem erase_mo (occ : Nat) (mk : Marker) (hdr : Bool) : eraseSym (Sym.mo occ mk hdr) = Sym.m mk hdr := by
+  obtain ⟨h, hodd⟩ := symM_lt mk hdr
+  have key : ∀ s : Nat, s < 64 → s % 2 = 1 →
+      (if 512 + 64 * occ + s < 512 then 512 + 64 * occ + s else 2 * (((512 + 64 * occ + s - 512) % 64) / 2) + 1) = s := by
+    intro s h1 h2
+    have h3 : ¬ (512 + 64 * occ + s < 512) := by omega
+    rw [if_neg h3]
+    have : (512 + 64 * occ + s - 512) % 64 = s := by omega
+    rw [this]; omega
+  exact key (Sym.m mk hdr) h hodd
+
+/-- a symbol that erases to a token symbol IS that token symbol -/
+theorem erase_eq_t {x : Sym} {c : TC} (h : eraseSym x = Sym.t c) : x = Sym.t c := by
+  have key : ∀ (x t : Nat), (if x < 512 then x else 2 * (((x - 512) % 64) / 2) + 1) = 2 * t → x = 2 * t := by
+    intro x t h
+    split at h
+    · exact h
+    · omega
+  exact key x (tcCode c) h
+
+/-- `cs` has an annotation (a symbol string that erases to `syms cs`) in the language of `a` -/
+def Ann (hd : HData) (F : Follow) (a : Abs) (cs : List Chunk) : Prop :=
+  ∃ l : List Sym, l.map eraseSym = syms hd cs ∧ InLang F a l
+
+theorem ann_nil (hd : HData) (F : Follow) {a : Abs} (h : a.n = true) : Ann hd F a [] :=
+  ⟨[], rfl, inLang_nil F h⟩
+
+theorem ann_sym (hd : HData) (F : Follow) {a : Abs} {cs : List Chunk} (x : Sym) (he : syms hd cs = [eraseSym x])
+    (hf : x ∈ a.f) (hl : x ∈ a.l) : Ann hd F a cs :=
+  ⟨[x], by simp [he], ⟨fun h => by simp at h, fun y hy => by simp at hy; subst hy; exact hf,
+    fun y hy => by simp at hy; subst hy; exact hl, trivial⟩⟩
+
+theorem ann_append' {hd : HData} {F : Follow} {a b : Abs} {c1 c2 : List Chunk} (h1 : Ann hd F a c1) (h2 : Ann hd F b c2)
+    (hc : ∀ x ∈ a.l, ∀ y ∈ b.f, InF F x y) : Ann hd F (a.seq b) (c1 ++ c2) := by
+  obtain ⟨l1, e1, g1⟩ := h1
+  obtain ⟨l2, e2, g2⟩ := h2
+  exact ⟨l1 ++ l2, by simp [syms, List.map_append] at e1 e2 ⊢; rw [e1, e2], inLang_append' g1 g2 hc⟩
+
+theorem ann_append {hd : HData} {F : Follow} {a b : Abs} {c1 c2 : List Chunk} (h1 : Ann hd F a c1) (h2 : Ann hd F b c2)
+    (hc : ∀ p ∈ cross a b, p ∈ F) : Ann hd F (a.seq b) (c1 ++ c2) :=
+  ann_append' h1 h2 (fun _ hx _ hy => inF_cross hc hx hy)
+
+theorem ann_weaken {hd : HData} {F : Follow} {a b : Abs} {cs : List Chunk} (h : Ann hd F a cs) (hn : a.n = true → b.n = true)
+    (hf : ∀ x ∈ a.f, x ∈ b.f) (hl : ∀ x ∈ a.l, x ∈ b.l) : Ann hd F b cs := by
+  obtain ⟨l, e, g⟩ := h
+  exact ⟨l, e, inLang_weaken g hn hf hl⟩
+
+theorem ann_opt {hd : HData} {F : Follow} {a : Abs} {cs : List Chunk} (h : Ann hd F a cs) : Ann hd F a.opt cs :=
+  ann_weaken h (fun _ => rfl) (fun _ hx => hx) (fun _ hx => hx)
+
+theorem ann_mono {hd : HData} {F : Follow} {a b : Abs} {cs : List Chunk} (h : Ann hd F a cs) (hle : a.le b = true) :
+    Ann hd F b cs := by
+  obtain ⟨l, e, g⟩ := h
+  exact ⟨l, e, inLang_mono g hle⟩
+
 end CalmVerif.TokenAdj
